@@ -473,6 +473,39 @@ Proof.
   intros k Hk. destruct (A3 k) as [Hin|Hn]; [contradiction|exact Hn].
 Qed.
 
+(** the ghost lists start at the invocation with the binding of that instant *)
+Lemma scan_seen_invoke s t s' k :
+  sstep2 s (EScanInvoke t) = Some s' ->
+  sc_seen (scn s' t) k = [bm (base s) k] /\ sc_active (scn s' t) = true.
+Proof.
+  cbn [sstep2]. destruct (sc_pc (scn s t)); try discriminate. intros H; injection H as <-.
+  cbn [scn]. rewrite updf_same. cbn [sc_seen sc_active]. auto.
+Qed.
+
+(** (S0) + (S1) in one statement *)
+Theorem scan_perkey_full s t :
+  reach2 s ->
+  (* the ghost lists: start at the invocation, always contain the current binding, only grow *)
+  (forall s' k, sstep2 s (EScanInvoke t) = Some s' -> sc_seen (scn s' t) k = [bm (base s) k]) /\
+  (sc_active (scn s t) = true -> forall k, In (bm (base s) k) (sc_seen (scn s t) k)) /\
+  (forall e s' k, sstep2 s e = Some s' -> e <> EScanInvoke t -> e <> EScanReturn t ->
+     exists l, sc_seen (scn s' t) k = l ++ sc_seen (scn s t) k) /\
+  (* a completed scan *)
+  (forall v res, sc_pc (scn s t) = SDone v res ->
+     let seen := sc_seen (scn s t) in
+     sc_active (scn s t) = true /\
+     StronglySorted N.lt (map fst res) /\
+     (forall k w, In (k, w) res -> w <> 0 /\ In (Some w) (seen k)) /\
+     (forall k, ~ In k (map fst res) -> In None (seen k))).
+Proof.
+  intros H. split; [|split; [|split]].
+  - intros s' k Hs. apply (scan_seen_invoke s t s' k Hs).
+  - intros Ha k. apply scan_seen_current; assumption.
+  - intros e s' k Hs H1 H2. eapply scan_seen_grows; eauto.
+  - intros v res Hpc seen. destruct (scan_perkey s t v res H Hpc) as (A & B & C & _).
+    split; [|auto]. destruct (SI_scn s (sinv_reach s H) t) as (Ha & _). apply Ha. congruence.
+Qed.
+
 (** (S2), correct form *)
 Theorem scan_seen_or_stale s t v res :
   reach2 s -> sc_pc (scn s t) = SDone v res ->
@@ -555,14 +588,14 @@ Proof.
                 bm (base s) k <> None /\ ~ In k (map fst res) /\
                 b_vins (base s) = v /\ b_insdel (base s) = true /\ b_locked (base s) = true)
            transient_trace).
-  destruct (srun2 sinit2 transient_trace) as [s|] eqn:E; [|vm_compute in E; discriminate E].
-  exists 0%nat, 2, [(5, 7); (9, 3)], 2.
   assert (H : match srun2 sinit2 transient_trace with
               | Some s => sc_pc (scn s 0%nat) = SDone 2 [(5, 7); (9, 3)] /\ bm (base s) 2 = Some 4 /\
                           b_vins (base s) = 2 /\ b_insdel (base s) = true /\ b_locked (base s) = true
               | None => False
               end) by (vm_compute; repeat split).
-  rewrite E in H. destruct H as (H1 & H2 & H3 & H4 & H5).
+  destruct (srun2 sinit2 transient_trace) as [s|]; [|contradiction].
+  destruct H as (H1 & H2 & H3 & H4 & H5).
+  exists 0%nat, 2, [(5, 7); (9, 3)], 2.
   split; [exact H1|]. split; [rewrite H2; discriminate|].
   split; [cbn [map fst In]; intros [H|[H|[]]]; discriminate H|]. auto.
 Qed.
